@@ -114,21 +114,27 @@ def _forking_main(conn_pipe, kind_kwargs, auth, socket_path):
     srv._listen()
     conn_pipe.send(("ready", srv.port))
 
+    state = {"phase": "serving"}
+
     def control():
+        # runs beside the accept loop; close() itself must run in the main thread (it restores a signal handler)
         while True:
             try:
                 msg = conn_pipe.recv()
             except EOFError:
                 os._exit(0)
             if msg == "close":
-                srv.close()
-                conn_pipe.send(("closed", None))
-            elif msg == "close2":
-                try:
-                    srv.close()
-                    conn_pipe.send(("closed2", None))
-                except Exception as ex:
-                    conn_pipe.send(("closed2", repr(ex)))
+                srv.active = False          # start() leaves its loop and runs close() in the main thread
+                if socket_path:
+                    # a unix listener has no accept timeout: wake the blocked accept() with a throw-away connection
+                    try:
+                        w = socket.socket(socket.AF_UNIX, socket.SOCK_STREAM)
+                        w.settimeout(1.0)
+                        w.connect(socket_path)
+                        w.close()
+                    except (socket.error, OSError):
+                        pass
+                return
             elif msg == "alive":
                 conn_pipe.send(("alive", srv.active))
             elif msg == "exit":
@@ -137,9 +143,23 @@ def _forking_main(conn_pipe, kind_kwargs, auth, socket_path):
     t.daemon = True
     t.start()
     try:
-        srv.start()
+        srv.start()                          # returns after close()
+        conn_pipe.send(("closed", None))
+        while True:
+            try:
+                msg = conn_pipe.recv()
+            except EOFError:
+                break
+            if msg == "close2":
+                try:
+                    srv.close()
+                    conn_pipe.send(("closed2", None))
+                except Exception as ex:
+                    conn_pipe.send(("closed2", repr(ex)))
+            elif msg == "exit":
+                break
     finally:
-        time.sleep(0.2)
+        time.sleep(0.1)
         os._exit(0)
 
 
